@@ -5,15 +5,16 @@ import small_corr, text_corr, factory_corr
 def explore(run, lean):
     quick = run.tier == "quick"
     text_corr.explore_json(run, 400 if quick else 8000)
+    text_corr.explore_json_codec(run, 150 if quick else 5000)
     run.extra["rule"] = ("random nested JSON payloads (None, booleans, big ints, -0.0, tiny/huge floats, unicode and escaped strings, empty containers, nested lists/dicts) with known, new and awkward signal names; name, payload (type- and sign-exact) and number compared after loads(dumps(e))")
-    ROUND6_RULE = '; payloads and names that are themselves data notation (JSON text, reprs, numbers, keywords, dates, doubly serialised)'
+    ROUND6_RULE = '; payloads and names that are themselves data notation (JSON text, reprs, numbers, keywords, dates, doubly serialised); the JSON text itself: json.dumps / json.loads against the Lean codec Text.JsonCodec (family jsonc) on generated values (floats excluded) and hand-written texts'
     run.extra["rule"] += ROUND6_RULE
 
 
 def replay(case):
     cc = case.get("case", case)
     what = cc.get("what", "")
-    if what in ("strip", "stmt", "json"):
+    if what in ("strip", "stmt", "json", "json-codec"):
         return text_corr.replay(case)
     if "regs" in cc:
         return factory_corr.replay(case)
